@@ -9,7 +9,7 @@ from collections import Counter
 import vlib
 from . import c05
 
-THEOREM_FILES = ['C09']
+THEOREM_FILES = ['C09', 'C09b']
 ASSUMPTIONS = ['the hand expansion is done by the generator on structured bodies (holes in operand positions); arguments are pasted fully parenthesised',
                'line numbers differ between a program and its expansion, so messages are not generated inside macro bodies']
 
